@@ -11,6 +11,7 @@ import (
 	"fmt"
 	"os"
 	"sort"
+	"strings"
 
 	"bebopverif/internal/core"
 	"bebopverif/internal/rules"
@@ -65,6 +66,21 @@ func main() {
 			r.Tier = "quick"
 		}
 		os.Exit(run(r.Property, r.Tier, *repo, *verif, r.Rule+" "+r.Key))
+	case "multi":
+		// bebopcheck multi C01,C02,... : several properties in one process
+		// (shares the fold of the generator); exit code is the worst one
+		if len(pos) != 1 {
+			usage()
+		}
+		worst := 0
+		for _, id := range strings.Split(pos[0], ",") {
+			e := run(id, *tier, *repo, *verif, "")
+			fmt.Printf("RESULT %s exit=%d\n", id, e)
+			if e > worst {
+				worst = e
+			}
+		}
+		os.Exit(worst)
 	case "list":
 		ids := rules.IDs()
 		sort.Strings(ids)
